@@ -35,16 +35,31 @@ theorem superimposed_style_only_fg (env : Env) (t : SynStyle) (d : Style) :
     (makeSuperimposedStyle env t d ≠ d → d.isSyntaxHighlighted = true ∧ t ≠ env.null) ∧
     (d.isSyntaxHighlighted = true → t ≠ env.null →
       (makeSuperimposedStyle env t d).ansi.fg = toAnsiColor env t.fg) := by
+  -- facts about the generated description (order of the atoms is irrelevant)
+  have hov : thenAnsiOverrides = [(.foreground, .syntectForeground)] := by decide
+  have hst : thenStyleOverrides = [] := by decide
+  have m1 : Atom.diffIsSyntaxHighlighted ∈ condition := by decide
+  have m2 : Atom.syntectIsNotNull ∈ condition := by decide
+  have only : ∀ a ∈ condition, a = .diffIsSyntaxHighlighted ∨ a = .syntectIsNotNull ∨ a = .constTrue := by
+    decide
+  have hcond : condition.all (evalAtom env t d) = true ↔
+      (d.isSyntaxHighlighted = true ∧ t ≠ env.null) := by
+    rw [List.all_eq_true]
+    constructor
+    · intro h
+      exact ⟨by simpa [evalAtom] using h _ m1, by simpa [evalAtom] using h _ m2⟩
+    · intro ⟨h1, h2⟩ a ha
+      rcases only a ha with rfl | rfl | rfl <;> simp [evalAtom, h1, h2]
   unfold makeSuperimposedStyle
-  simp only [condition, thenAnsiOverrides, thenStyleOverrides, List.all_cons, List.all_nil,
-    evalAtom, List.foldl_cons, List.foldl_nil, setAnsi, sourceColor, Bool.and_true,
-    Bool.and_eq_true, bne_iff_ne, ne_eq]
+  rw [hov, hst]
+  simp only [List.foldl_cons, List.foldl_nil, setAnsi, sourceColor]
   refine ⟨?_, ?_, ?_⟩
   · split <;> simp [eraseFg]
   · split
-    · rename_i h; intro _; exact h
+    · rename_i h; intro _; exact hcond.mp h
     · intro h; exact absurd rfl h
-  · intro h1 h2; simp [h1, h2]
+  · intro h1 h2
+    rw [if_pos (hcond.mpr ⟨h1, h2⟩)]
 
 example : makeSuperimposedStyle
     { trueColor := true, null := configNull, quant := fun _ _ _ => 0 }
